@@ -98,5 +98,13 @@ def sim(p, ctx):
     oracle(M, ctx)
 
 
+def sim_history(p, ctx):
+    from props.simcore import run_sim_history
+
+    M = run_sim_history(p, ctx, p["mode"])
+    if M.exc is None:
+        oracle(M, ctx)
+
+
 def obligations(tier, seed):
     return profiles.obligations_for("C01", tier)
